@@ -263,6 +263,16 @@ Proof.
   apply on_list_ext. eapply Forall_impl; [|exact IH]. intros k Hk o. apply Hk.
 Qed.
 
+(* the override changes no length (hence no offset): only the bytes inside the DW_AT_sibling slots differ *)
+Lemma enc_forest_ov_len codes ov bigend off f pad :
+  nlen (enc_forest_ov codes ov bigend off f pad) = nlen (enc_forest codes bigend off f pad).
+Proof.
+  assert (Hfacts : Forall (tree_facts codes ov bigend) f)
+    by (apply Forall_forall; intros t _; apply evs_ov_facts).
+  destruct (list_facts codes ov bigend 0 f off Hfacts) as (B & L & _ & _).
+  unfold enc_forest_ov, enc_forest. rewrite !nlen_app, <- B, L, enc_forest_list_len. reflexivity.
+Qed.
+
 (* ------------------------------------------------------------------ *)
 (** * The full depth-first walk of a unit with overridden DW_AT_sibling values *)
 Section UnitOv.
